@@ -180,9 +180,10 @@ class Engine:
         self._push(taken)
         return d
 
-    def pick(self, term, as_signed=True):
+    def pick(self, term, as_signed=True, prefer=()):
         """concretise a bit-vector term: returns a feasible value; the alternative
-        (term != value) is explored on another path."""
+        (term != value) is explored on another path.  `prefer`: values tried first (interval ends of a
+        domain too large to enumerate, so that the extremes are among the paths explored before the bound is hit)."""
         self._step()
         i = len(self.trace)
         if i < len(self.prefix):
@@ -194,8 +195,15 @@ class Engine:
                 self._push(term == val if d else term != val)
                 self.model = None
             return val, d
-        v = self._need_model().eval(term, model_completion=True)
-        val = v.as_signed_long() if as_signed else v.as_long()
+        val = None
+        for pv in prefer:
+            if self._check(term == pv) is not None:
+                val = pv
+                self.model = None          # the cached model need not agree with the preferred value
+                break
+        if val is None:
+            v = self._need_model().eval(term, model_completion=True)
+            val = v.as_signed_long() if as_signed else v.as_long()
         m2 = self._check(term != val)
         self.trace.append([P, True, m2 is not None, val])
         self._push(term == val)
